@@ -293,18 +293,66 @@ def overlaps(tier: str, rng: random.Random):
     return bad, n_sets, n_sched
 
 
+def truthiness_predicates() -> Optional[dict]:
+    """"every predicate holds": a user-written predicate that answers with a falsy value that is not False (None from
+    a failed re.match, 0 from a remainder, '' from an and-chain) fails, one that answers with a truthy non-bool holds -
+    sync and async predicates alike, in declaration order."""
+    from koda_validate import IntValidator, ListValidator, Predicate, PredicateAsync, StringValidator
+
+    class P_(Predicate):            # type: ignore
+        def __init__(self, name, fn):
+            self.name, self.fn = name, fn
+        def __call__(self, val):
+            return self.fn(val)
+        def __repr__(self):
+            return f"<pred {self.name}>"
+
+    class A_(PredicateAsync):       # type: ignore
+        def __init__(self, name, fn):
+            self.name, self.fn = name, fn
+        async def validate_async(self, val):
+            return self.fn(val)
+        def __repr__(self):
+            return f"<async pred {self.name}>"
+    import re as _re
+    fns = [("re.match", lambda v: _re.match("a+", str(v))), ("remainder", lambda v: (v % 2) if isinstance(v, int) else len(str(v)) % 2),
+           ("and-chain", lambda v: str(v) and str(v)[:1].isupper() and "yes"), ("lookup", lambda v: {1: [], "Ab": {"k": 1}, "aa": [0]}.get(v)),
+           ("always None", lambda v: None), ("always 1", lambda v: 1)]
+    for mk, xs in ((lambda ps, aps: IntValidator(*ps, predicates_async=aps), [1, 2, 3]),
+                   (lambda ps, aps: StringValidator(*ps, predicates_async=aps), ["aa", "Ab", "", "b"])):
+        for x in xs:
+            for mode in ("sync", "async"):
+                ps = [P_(n, f) for n, f in fns]
+                aps = [A_(n, f) for n, f in fns] if mode == "async" else None
+                v = mk(ps, aps)
+                got = v(x) if mode == "sync" else drive(v.validate_async(x))
+                want = [p for p in ps if not p.fn(x)] + [p for p in (aps or []) if not p.fn(x)]
+                listed = list(got.err_type.predicates) if type(got) is Invalid and type(got.err_type) is PredicateErrs else []
+                if (not want and type(got) is not Valid) or len(listed) != len(want) or any(a is not b for a, b in zip(listed, want)):
+                    return {"signature": "C02:predicate-truthiness",
+                            "what": f"{v!r} ({mode}) on {x!r}: the predicates answering with a falsy value are {want!r}; the result is {got!r}"}
+    return None
+
+
 def run(tier: str, rng: random.Random, proof_ok: bool) -> dict:
     rep = run_families("C02", cases(tier, rng), rng, oracle, nontrivial)
     bad, n_sets, n_sched = overlaps(tier, rng)
     rep["violations"] += bad
     rep["coverage"]["overlapping_call_sets"] = n_sets
     rep["coverage"]["schedules"] = n_sched
+    tp = truthiness_predicates()
+    if tp:
+        rep["violations"].append({"kind": "oracle", **tp, "replay_case": {"truthiness_predicates": True}})
     return rep
 
 
 def replay(path: str) -> int:
     import json
     rc = json.load(open(path)).get("replay_case")
+    if isinstance(rc, dict) and rc.get("truthiness_predicates"):
+        tp = truthiness_predicates()
+        print("property violated: " + tp["what"] if tp else "property holds for predicates answering with non-bool values")
+        return 1 if tp else 0
     r = replay_special(rc, "C02") if isinstance(rc, dict) else None
     return r if r is not None else generic_replay(path, oracle)
 
